@@ -208,7 +208,10 @@ def configOp (j : Json) : Except String Res := do
   let raw0 ← j.getObjVal? "raw"
   let expect ← (← j.getObjVal? "expect").getStr?
   if expect == "toml" then
-    return { model := Json.mkObj [("reject", "toml")], nontrivial := true }
+    -- the file has an unknown key or table, a value of the wrong type or a syntax error (the
+    -- generator wrote it so): it must be refused at startup, whatever else it contains
+    let refused := ((j.getObjVal? "impl").toOption.bind fun i => (i.getObjVal? "reject").toOption).isSome
+    return { model := Json.mkObj [("reject", "toml")], preds := [("unusable_file_is_refused", refused)], nontrivial := true }
   -- a value of another TOML type: decoding is the decoder's (trusted); the model starts from what
   -- it decoded, or from its refusal
   let typed := (j.getObjVal? "typed").toOption == some (Json.bool true)
